@@ -75,29 +75,26 @@ def main(pid, tier, seed, replay_path=None):
         return 1
 
     recs = cl.routes_batch(seed, tier, l2, dr)
-    l3_ops = 0
-    if pid == "C07":
-        # the NO_ACCESS_* reasons depend on what the request factory and the geofilter in front of the router make of the
-        # walking maxima (no limit, very large values, values equal to a row): the same reasons as the REAL server gives
-        # them over HTTP, on generated cache directories, judged by the same model and oracle
-        import l3, l3batch
-        binary, e3 = l3.build_server()
-        if e3:
-            path = cl.write_nofail_replay(pid, "server build against /repo", str(e3))
-            print("VIOLATION property=%s replay=%s no-failing-input-found" % (pid, path))
-            return 1
-        n3, nq3 = (14, 14) if tier == "quick" else (150, 20)
-        more, _extras = l3batch.l3_batch(seed + 77, n3, nq3, dr, os.path.join(build.WORK, "scratch", "c07-l3-%d-%s" % (seed, tier)), binary=binary)
-        for r in more:
-            r["l3"] = True
-        l3_ops = len(more)
-        recs = recs + more
+    # every property of C01-C10 is also judged on answers of the REAL server over HTTP (generated cache directories read by the
+    # real loaders, requests through the parameter factory, the geofilter in front of a router stub, the JSON renderer): a
+    # change in that glue breaks these properties as surely as one in the scans, and the in-process harness does not see it
+    more, e3 = cl.l3_routes_batch(seed, tier, dr)
+    if e3:
+        path = cl.write_nofail_replay(pid, "server build against /repo", e3)
+        print("VIOLATION property=%s replay=%s no-failing-input-found" % (pid, path))
+        return 1
+    l3_ops = len(more)
+    recs = recs + more
     res = props_l2.evaluate(pid, recs, known)
     widened = 0
     # a broken obligation or correspondence: widen the search for a failing input before giving up
     if (res["diffs"] or not po["ok"]) and not res["fails"]:
         for extra in range(1, 4 if tier == "quick" else 9):
             more = cl.routes_batch(seed + 1000 * extra, tier, l2, dr)
+            if any(r.get("l3") for r in res["diffs"]):
+                # the disagreement is on answers of the real server: widen the search there too
+                m3, _e = cl.l3_routes_batch(seed + 1000 * extra, tier, dr)
+                more = more + (m3 or [])
             r2 = props_l2.evaluate(pid, more, known)
             widened += len(r2["applicable"])
             if r2["fails"]:
@@ -153,7 +150,7 @@ def main(pid, tier, seed, replay_path=None):
                known_findings_reobserved=sorted(reported_known), widened_search_cases=widened, exhaustive=False)
     if l3_ops:
         cov["real_server_operations"] = l3_ops
-        cov["rule"] += "; plus %d operations answered by the real server over HTTP on generated cache directories (walking maxima incl. no limit, 50000/60000 s, values equal to a row)" % l3_ops
+        cov["rule"] += "; plus %d operations answered by the real server over HTTP on generated cache directories (real loaders incl. asymmetric footpath tables, parameter factory, geofilter with walking maxima incl. no limit, 50000/60000 s and values equal to a row, JSON renderer)" % l3_ops
     cl.write_evidence(pid, tier, seed, "proof", cov,
                       ["the walking router is a table (TableGeoFilter); datasets enter through an in-memory DataFetcher that builds connections like the cache loader (tied separately by C16)",
                        "the tie is differential: its strength is bounded by the generators whose measured distribution is listed"],
